@@ -49,7 +49,7 @@ def match_known(known, prop, job, name):
     for k in known:
         if k.get("status", "known") != "known":
             continue
-        if k["property"] != prop:
+        if prop not in k["property"].split(","):
             continue
         if _glob(job, k["job"]) and _glob(name, k["obligation"]):
             return k
